@@ -278,6 +278,24 @@ def build_store(rng: random.Random, mode: str) -> tuple[list[dict], dict]:
                                       rng.choice([10**6, 10**9, store.MIN]),
                                       sibling_perm=rng.random() < 0.7)
             traces.append({"job_id": jid, "name": name, "kind": "complete", "spans": spans})
+    if traces and rng.random() < 0.4:
+        # single-instant traces of their own shape exactly on the extremes of the data, at
+        # nanosecond values that a double cannot hold (epoch-scale ns have a spacing of 256):
+        # the new minimum would round UP, the new maximum DOWN - with integer, inclusive
+        # window bounds both traces are candidates
+        lo = min(s["start_timestamp"] for tr in traces for s in tr["spans"])
+        hi = max(s["end_timestamp"] for tr in traces for s in tr["spans"])
+        lo2 = lo - 1000
+        lo2 = lo2 - lo2 % 256 + 200
+        hi2 = hi + 1000
+        hi2 = hi2 - hi2 % 256 + 256 + 50
+        for tag, ts in (("EXTLO", lo2), ("EXTHI", hi2)):
+            jid = f"t{t}"
+            t += 1
+            traces.append({"job_id": jid, "name": names[0], "kind": "complete", "spans": [{
+                "job_name": names[0], "job_id": jid, "event_type": tag, "event_id": jid + ".0",
+                "start_timestamp": ts, "end_timestamp": ts, "application_name": "app",
+                "parent_event_id": None}]})
     st = {"traces": traces}
     order = rng.choice(["by-trace", "interleaved", "reversed", "shuffled"])
     return store.flatten(st, rng, order), {"order": order, "names": names, "traces": len(traces)}
